@@ -105,6 +105,13 @@ def run(c, facts, tier):
                     fresh = False
     params_mgr = [p for p in comp.params if "Manager" in p[1]]
     c.ob("C15.no-state", comp.key, "a fresh manager per compile call", fresh and len(made) == 2 and not params_mgr, "managers handed to the expression's compile() on the paths of %s: %s (each constructed by Default inside the call); passed in from outside: %s" % (comp.key, sorted(x or "?" for x in made), params_mgr))
+    # ---------------------------------------------------------------- keys: equality and hash agree
+    # a key type whose `==` and `hash` are not both the derived ones may call two keys equal that hash differently: whether a
+    # lookup then finds the entry depends on the per-process seed of the hasher — the same input compiles to different programs
+    from .. import valuetraits as _vt
+
+    kp_ = _vt.key_problems(facts)
+    c.ob("C15.hash-order", "hash keys", "equality and hash of every map key type are the derived ones (consistent with each other)", not kp_, "key types: %s%s" % (sorted(_vt.key_types(facts)), ("; NOT derived: %s" % kp_) if kp_ else ""), witness="-fprint out -fprint0 out (compiled repeatedly)" if kp_ else None)
     # ---------------------------------------------------------------- logging must not carry behaviour
     PURE = {"len", "is_empty", "to_string", "clone", "as_ref", "as_str", "iter", "count", "as_slice", "display", "to_owned"}
     nlog = 0
